@@ -80,6 +80,9 @@ def run(model: Model, rep: Report) -> None:
         ok = got == want
     first = [c for c in walk_no_nested(ea.node) if isinstance(c, ast.Call) and (dotted(c.func) or "") == "LTContainer.add"]
     r3.check(ok and bool(first), site(ea), ea.qualname, "add(obj): append, then bbox = (min x0, min y0, max x1, max y1) of self and obj", why="bounding-box update changed")
+    gea = build_cfg(ea.node, exc_edges=False)
+    wea = gea.all_path_pass(gea.entry, lambda n: n.ast is not None and n.kind == "stmt" and contains_call(n.ast, lambda c: (dotted(c.func) or "") == "self.set_bbox"))
+    r3.check(wea is None and not any(isinstance(n, (ast.If, ast.Return)) for n in walk_no_nested(ea.node)), site(ea), ea.qualname, "the box grows for every member added (no early exit, no condition)", why="a path through add() skips set_bbox: a member (for example a zero-width mark that sticks out of its line) is in the container but outside its bounding box")
     bypass = []
     for f in model.funcs.values():
         if not f.qualname.startswith(L) or isinstance(f.node, ast.Lambda):
@@ -174,6 +177,23 @@ def run(model: Model, rep: Report) -> None:
 
     # ---------------------------------------------------------------- R11
     _group_textboxes(model, rep)
+    # ---------------------------------------------------------------- R13
+    r13 = rep.rule("C08-R13", "GUARD", "the layout analysis never divides by a glyph extent (zero-width / zero-height glyphs are legal input)", 1)
+    ndiv = 0
+    for q, f in sorted(model.funcs.items()):
+        if not q.startswith(L) or isinstance(f.node, ast.Lambda):
+            continue
+        for n in walk_no_nested(f.node):
+            if isinstance(n, ast.BinOp) and isinstance(n.op, (ast.Div, ast.FloorDiv, ast.Mod)) and not (isinstance(n.left, ast.Constant) and isinstance(n.left.value, (str, bytes))):
+                den = n.right
+                ext = [x for x in ast.walk(den) if isinstance(x, ast.Attribute) and x.attr in ("width", "height")]
+                ndiv += 1
+                if ext:
+                    r13.violation(site(f, n), q, unparse(n)[:80], f"divides by `{unparse(den)[:40]}`, which is 0 for a degenerate glyph: ZeroDivisionError aborts the analysis of the whole page")
+                else:
+                    r13.ok(site(f, n), q, unparse(n)[:80], nontrivial=False)
+    if ndiv == 0:
+        r13.ok(L, L, "no division in the layout module", nontrivial=False)
     # ---------------------------------------------------------------- R12
     r12 = rep.rule("C08-R12", "EFFECTS", "layout items keep identity semantics: the grouping code puts them into sets, dictionaries and `uniq`, so no class of the hierarchy defines __eq__/__hash__", 20)
     for cq, ci in sorted(model.classes.items()):
